@@ -88,6 +88,32 @@ impl<'a> Trials<'a> {
 
 thread_local! {
     static LAST_PANIC: RefCell<Option<String>> = const { RefCell::new(None) };
+    static SITE: RefCell<Option<String>> = const { RefCell::new(None) };
+    static SITES: RefCell<BTreeMap<String, String>> = const { RefCell::new(BTreeMap::new()) };
+}
+
+fn strip_generics(f: &str) -> String {
+    // "agdb::storage::Storage<D>::read_records" -> "agdb::storage::Storage::read_records"
+    let mut out = String::new();
+    let mut depth = 0;
+    for c in f.chars() {
+        match c {
+            '<' => depth += 1,
+            '>' => depth -= 1,
+            _ if depth == 0 => out.push(c),
+            _ => {}
+        }
+    }
+    out
+}
+
+/// Signature of the last caught panic: the innermost agdb function plus the normalised message.
+pub fn panic_class(msg: &str) -> String {
+    let site = SITE.with(|s| s.borrow_mut().take()).unwrap_or_else(|| "?".into());
+    let body = msg.splitn(2, ": ").nth(1).unwrap_or(msg);
+    let body = body.split(" [via ").next().unwrap_or(body);
+    let body = body.split(" [in ").next().unwrap_or(body);
+    format!("panic@{site}: {}", normalise(body))
 }
 
 pub fn install_panic_hook() {
@@ -109,7 +135,32 @@ pub fn install_panic_hook() {
         } else {
             "non-string payload".to_string()
         };
-        LAST_PANIC.with(|p| *p.borrow_mut() = Some(format!("{loc}: {msg}")));
+        let mut trace = String::new();
+        if msg != "BUDGET" {
+            // first agdb frames: the call site is the stable part of a panic's identity (line numbers are not).
+            // Symbolising a backtrace costs tens of milliseconds, so panics raised at a location inside agdb
+            // (where the innermost agdb function is determined by the location) are resolved once per location.
+            let cached = if loc.starts_with("agdb") { SITES.with(|c| c.borrow().get(&loc).cloned()) } else { None };
+            match cached {
+                Some(site) => {
+                    SITE.with(|s| *s.borrow_mut() = Some(site.clone()));
+                    trace = format!(" [in {site}]");
+                }
+                None => {
+                    let bt = std::backtrace::Backtrace::force_capture().to_string();
+                    let frames: Vec<String> = bt.lines().map(|l| l.trim()).filter(|l| l.contains("agdb::") && !l.contains("dbsim")).take(4).map(|l| l.splitn(2, ": ").nth(1).unwrap_or(l).to_string()).collect();
+                    if let Some(f) = frames.first() {
+                        let site = strip_generics(f);
+                        if loc.starts_with("agdb") {
+                            SITES.with(|c| c.borrow_mut().insert(loc.clone(), site.clone()));
+                        }
+                        SITE.with(|s| *s.borrow_mut() = Some(site));
+                    }
+                    trace = format!(" [via {}]", frames.join(" <- "));
+                }
+            }
+        }
+        LAST_PANIC.with(|p| *p.borrow_mut() = Some(format!("{loc}: {msg}{trace}")));
     }));
 }
 
@@ -157,9 +208,12 @@ pub fn normalise(msg: &str) -> String {
 pub struct CapAlloc;
 
 static CAP: AtomicUsize = AtomicUsize::new(usize::MAX);
-pub static PEAK_REQ: AtomicUsize = AtomicUsize::new(0);
+pub static TRACE_OVERCAP: AtomicUsize = AtomicUsize::new(0);
 
 pub fn set_alloc_cap(cap: Option<usize>) {
+    if std::env::var("VERIF_BACKTRACE").is_ok() {
+        TRACE_OVERCAP.store(1, Ordering::Relaxed);
+    }
     CAP.store(cap.unwrap_or(usize::MAX), Ordering::SeqCst);
 }
 
@@ -214,6 +268,12 @@ fn overcap(size: usize) -> ! {
     len += 1;
     unsafe {
         libc_write(2, buf.as_ptr(), len);
+    }
+    {
+        CAP.store(usize::MAX, Ordering::SeqCst);
+        let bt = std::backtrace::Backtrace::force_capture().to_string();
+        let frames: Vec<String> = bt.lines().map(|l| l.trim()).filter(|l| l.contains("agdb::") && !l.contains("dbsim")).take(5).map(|l| l.splitn(2, ": ").nth(1).unwrap_or(l).to_string()).collect();
+        eprintln!("OVERCAP-VIA {}", frames.join(" <- "));
     }
     std::process::abort();
 }
